@@ -27,9 +27,9 @@ package controller
 //@   requires[wired] c != nil && msg != nil && !isnil(c.log) && !isnil(c.RCManager) && c.Consensus != nil && !isnil(c.Consensus.Controller) && c.FSM != nil && c.Metrics != nil && c.isSyncing != nil
 //@   nopanic
 //@   callsite CommitCertificate requires[same] arg1 == old(msg.BlockAndCertificate)
-//@   callsite CommitCertificate requires[ids] (syncing && qc.Header.Height % CheckpointFrequency != 0) || (qc.Header.NetworkId == c.Config.NetworkID && qc.Header.ChainId == c.Config.ChainId)
-//@   callsite CommitCertificate requires[certified] (syncing && qc.Header.Height % CheckpointFrequency != 0) || (aggVerifies(committeeOf(resultof(LoadCommittee).MultiKey), bytes(qc.Signature.Bitmap), signBytesOf(qc), bytes(qc.Signature.Signature)) && signedPowerW(resultof(LoadCommittee).ValidatorSet.ValidatorSet, bytes(qc.Signature.Bitmap), false, len(resultof(LoadCommittee).ValidatorSet.ValidatorSet)) >= resultof(LoadCommittee).MinimumMaj23)
-//@   callsite CommitCertificate requires[committee] (syncing && qc.Header.Height % CheckpointFrequency != 0) || committeeOf(resultof(LoadCommittee).MultiKey) == committeeAt(rootChainIdAt(qc.Header.Height), qc.Header.RootHeight)
+//@   callsite CommitCertificate requires[ids] (syncing && callee.qc.Header.Height % CheckpointFrequency != 0) || (callee.qc.Header.NetworkId == c.Config.NetworkID && callee.qc.Header.ChainId == c.Config.ChainId)
+//@   callsite CommitCertificate requires[certified] (syncing && callee.qc.Header.Height % CheckpointFrequency != 0) || (aggVerifies(committeeOf(resultof(LoadCommittee).MultiKey), bytes(callee.qc.Signature.Bitmap), signBytesOf(callee.qc), bytes(callee.qc.Signature.Signature)) && signedPowerW(resultof(LoadCommittee).ValidatorSet.ValidatorSet, bytes(callee.qc.Signature.Bitmap), false, len(resultof(LoadCommittee).ValidatorSet.ValidatorSet)) >= resultof(LoadCommittee).MinimumMaj23)
+//@   callsite CommitCertificate requires[committee] (syncing && callee.qc.Header.Height % CheckpointFrequency != 0) || committeeOf(resultof(LoadCommittee).MultiKey) == committeeAt(rootChainIdAt(callee.qc.Header.Height), callee.qc.Header.RootHeight)
 
 // the previous block's certificate carried in a header is written to the store only if it names the block and
 // results this node committed at height-1 and - outside sync - verifies as a full +2/3 certificate of the
@@ -38,10 +38,10 @@ package controller
 //@   pure
 //@   ensures result == c.isSyncing
 //@ func (*Controller).CheckAndSetLastCertificate
-//@   callsite IndexQC requires[committed] candidate.Height > 1 && arg1 == candidate.LastQuorumCertificate && bytes(candidate.LastQuorumCertificate.BlockHash) == bytes(lastCertificate.BlockHash) && bytes(candidate.LastQuorumCertificate.ResultsHash) == bytes(lastCertificate.ResultsHash)
-//@   callsite IndexQC requires[certified] atomicFlag(c.isSyncing) || (aggVerifies(committeeOf(vs.MultiKey), bytes(candidate.LastQuorumCertificate.Signature.Bitmap), signBytesOf(candidate.LastQuorumCertificate), bytes(candidate.LastQuorumCertificate.Signature.Signature)) && signedPowerW(vs.ValidatorSet.ValidatorSet, bytes(candidate.LastQuorumCertificate.Signature.Bitmap), false, len(vs.ValidatorSet.ValidatorSet)) >= vs.MinimumMaj23)
+//@   callsite IndexQC requires[committed] candidate.Height > 1 && arg1 == candidate.LastQuorumCertificate && bytes(candidate.LastQuorumCertificate.BlockHash) == bytes(resultof(LoadCertificateHashesOnly).BlockHash) && bytes(candidate.LastQuorumCertificate.ResultsHash) == bytes(resultof(LoadCertificateHashesOnly).ResultsHash)
+//@   callsite IndexQC requires[certified] atomicFlag(c.isSyncing) || (aggVerifies(committeeOf(resultof(LoadCommittee).MultiKey), bytes(candidate.LastQuorumCertificate.Signature.Bitmap), signBytesOf(candidate.LastQuorumCertificate), bytes(candidate.LastQuorumCertificate.Signature.Signature)) && signedPowerW(resultof(LoadCommittee).ValidatorSet.ValidatorSet, bytes(candidate.LastQuorumCertificate.Signature.Bitmap), false, len(resultof(LoadCommittee).ValidatorSet.ValidatorSet)) >= resultof(LoadCommittee).MinimumMaj23)
 //@   callsite IndexQC requires[view] atomicFlag(c.isSyncing) || (candidate.LastQuorumCertificate.Header.Height == candidate.Height - 1 && candidate.LastQuorumCertificate.Header.NetworkId == c.Config.NetworkID && candidate.LastQuorumCertificate.Header.ChainId == c.Config.ChainId)
-//@   callsite IndexQC requires[committee] atomicFlag(c.isSyncing) || committeeOf(vs.MultiKey) == committeeAt(rootChainIdAt(candidate.LastQuorumCertificate.Header.Height), candidate.LastQuorumCertificate.Header.RootHeight)
+//@   callsite IndexQC requires[committee] atomicFlag(c.isSyncing) || committeeOf(resultof(LoadCommittee).MultiKey) == committeeAt(rootChainIdAt(candidate.LastQuorumCertificate.Header.Height), candidate.LastQuorumCertificate.Header.RootHeight)
 
 // ---- C02 / C01 / C14: the committee a certificate is judged against -----------------------------------------------
 // LoadCommittee answers with the committee in force at exactly the root height asked for - or fails. It never
